@@ -18,9 +18,9 @@ type Ctx struct {
 	tier  string
 	n     int
 	stats map[string]int
-	queue []string // case lines waiting for execution (isolated families)
-	iso   bool     // run cases in worker subprocesses (panic/spin/oom isolation)
-	only  map[string]bool // keep only these ops (nil: all)
+	queue []string                       // case lines waiting for execution (isolated families)
+	iso   bool                           // run cases in worker subprocesses (panic/spin/oom isolation)
+	only  map[string]bool                // keep only these ops (nil: all)
 	sink  func(op string, toks []string) // when set, cases are handed to sink instead of being executed
 }
 
